@@ -178,6 +178,31 @@ let sc_sorter_final_flush_fails c =
   So.c_sorter_destroy s; destroy c sid; Mg.c_merge_clos_free mc;
   observe c "sorter_destroy" ~threads_exact:true
 
+(* mtbl_sorter_write into a writer that already holds a greater key: the add is refused, the
+   write reports failure, and the iterator it created (one reader iterator per chunk) must be gone *)
+let sc_sorter_write_refused c =
+  let mc = Mg.c_merge_clos_new 1 0 in
+  let maxmem = if rbool c.st then 1 else rrange c.st 50 400 in
+  let s = So.c_sorter_init maxmem c.spill mc 0n in
+  let sid = create c (KSorter (false, N0)) in
+  for i = 0 to rrange c.st 3 60 do ignore (So.c_sorter_add s (Printf.sprintf "k%03d" (rint c.st 40)) (Printf.sprintf "a%d" i)) done;
+  update c sid (KSorter (false, n_of_int (So.c_mkstemp_count ())));
+  observe c "sorter_adds" ~threads_exact:true;
+  let path = Filename.concat c.dir "swr.mtbl" in
+  (try Sys.remove path with _ -> ());
+  let fd = Wr.c_open_rw path true in
+  let w = Wr.c_writer_init_fd fd (0, false, 0, false, 0, false, 0, 0n) in
+  Wr.c_close fd;
+  let wid = create c (KWriter false) in
+  (* the blocker sits above the first key, or in the middle of the sorter's range *)
+  ignore (Wr.c_writer_add w (if rbool c.st then "zzzz" else "k020") "blocker");
+  ignore (So.c_sorter_write s w);
+  update c sid (KSorter (false, n_of_int (So.c_mkstemp_count ())));
+  observe c "sorter_write(refused)" ~threads_exact:true;
+  Wr.c_writer_destroy w; destroy c wid;
+  So.c_sorter_destroy s; destroy c sid; Mg.c_merge_clos_free mc;
+  observe c "sorter_destroy" ~threads_exact:true
+
 let sc_fileset c =
   let names = List.init (rrange c.st 1 4) (fun i -> Printf.sprintf "t%02d.mtbl" i) in
   List.iter (fun nm -> ignore (mk_table c nm (rrange c.st 1 30))) names;
@@ -206,7 +231,7 @@ let sc_fileset c =
   destroy c fid; Mg.c_merge_clos_free mc;
   observe c "fileset_destroy" ~threads_exact:true
 
-let scenarios = [| ("writer", sc_writer); ("reader", sc_reader); ("merger", sc_merger); ("sorter", sc_sorter); ("fileset", sc_fileset); ("sorter_final_flush_fails", sc_sorter_final_flush_fails) |]
+let scenarios = [| ("writer", sc_writer); ("reader", sc_reader); ("merger", sc_merger); ("sorter", sc_sorter); ("fileset", sc_fileset); ("sorter_final_flush_fails", sc_sorter_final_flush_fails); ("sorter_write_refused", sc_sorter_write_refused) |]
 
 let run_scenario (name : string) (f : ctx -> unit) ~seed ~index : child_end =
   in_child (fun () ->
